@@ -12,6 +12,7 @@
 //           fail      module m: Hint/Warning/Error (lvl 1..3) with failure id "f<fid>"
 //           resolve   module m: Resolve("f<fid>")  (fid 0: Resolve(""))
 //           sfail     the start routine of module m fails from now on (v = "T") / works again (v = "F")
+//           wait      pause for k milliseconds (between config changes)
 //           sync      wait until the system is quiet, then observe (see observe())
 // The module system is a process-wide singleton, so one process executes exactly one script.
 // Nothing is judged here: the trace is validated by TLC against spec/Subsys.tla (spec/SubsysTrace.tla).
@@ -57,6 +58,7 @@ type script struct {
 	N       int     `json:"n"`
 	Deps    [][]int `json:"deps"`
 	Steps   []step  `json:"steps"`
+	Slow    []int   `json:"slow"`     // modules whose start routine takes 130 ms (longer than the manager's debounce interval)
 	QuietMs int     `json:"quiet_ms"` // the system counts as quiet when it has shown no activity and no change for this long (default 100)
 }
 
@@ -156,6 +158,11 @@ func startFn(i int) func() error {
 		mu.Lock()
 		fail := sf[i]
 		mu.Unlock()
+		for _, m := range sc.Slow {
+			if m == i {
+				time.Sleep(130 * time.Millisecond)
+			}
+		}
 		if fail {
 			return errors.New("injected start failure")
 		}
@@ -494,7 +501,7 @@ func main() {
 		if died {
 			break
 		}
-		if st.Op != "sync" && st.Op != "set" && pendingCfg {
+		if st.Op != "sync" && st.Op != "set" && st.Op != "wait" && pendingCfg {
 			// module level steps are made in a quiet system only
 			doSync()
 		}
@@ -585,6 +592,12 @@ func main() {
 			mu.Lock()
 			sf[st.M] = st.V == "T"
 			mu.Unlock()
+			emit(map[string]any{"e": "op", "op": st, "res": "ok", "ord": 0})
+		case "wait":
+			if !started {
+				continue
+			}
+			time.Sleep(time.Duration(st.K) * time.Millisecond)
 			emit(map[string]any{"e": "op", "op": st, "res": "ok", "ord": 0})
 		case "sync":
 			if started {
